@@ -7,8 +7,8 @@
 EXTENDS Lifecycle, Json, IOUtils
 
 Plan == JsonDeserialize(IOEnv.LC_PLAN)
-K == WithCrash(MkK(Plan.D, Plan.S, Plan.W, Plan.maxd, SeqToSet(Plan.cd), SeqToSet(Plan.kinds), Plan.pairs,
-         SeqToSet(Plan.bury), Plan.rev, Plan.mir, Plan.mode, Plan.empty), Plan.crash)
+K == WithSwitches(WithCrash(MkK(Plan.D, Plan.S, Plan.W, Plan.maxd, SeqToSet(Plan.cd), SeqToSet(Plan.kinds), Plan.pairs,
+         SeqToSet(Plan.bury), Plan.rev, Plan.mir, Plan.mode, Plan.empty), Plan.crash), Plan.markFirst, Plan.dropOrphans)
 
 TxJson(id) == LET t == K.tx[id] IN
   [id |-> t.id, k |-> t.k, d |-> t.d, needs |-> SetToSeq(t.needs), conflicts |-> SetToSeq(t.conflicts),
